@@ -53,6 +53,9 @@ def weights_body(n, kind, explicit):
                 cv._interactions = {k: v - base for k, v in inter.items()}
                 cv.update_outcomes()
             order = list(cv._cached_progs.keys())  # sorted by |delta| (path-dependent)
+            # documented ranking: the most effective program (largest |outcome - baseline|) comes first
+            for i in range(n - 1):
+                env.claim("ranked_by_effectiveness_%d" % i, env.ge(env.sabs(outs[names.index(order[i])] - base), env.sabs(outs[names.index(order[i + 1])] - base)), key="ranking")
             pc = {nm: env.array([c]) for nm, c in zip(names, cov)}
             val = cv.get_outcome(pc)
             combos = [[int(y) for y in row] for row in cv.combinations]
@@ -186,6 +189,73 @@ def special_body(n, kind):
     return body
 
 
+def additive_reference_body(n):
+    """The documented additive rule (docs/general/programs/Programs.rst): most effective programs first until 100% is reached,
+    the remaining coverage spread at random; written independently over the symbolic numbers"""
+
+    def body(env):
+        import atomica.programs as ap
+
+        names = ["P%d" % i for i in range(n)]
+        base = env.real("base", -1e3, 1e3)
+        outs = [env.real("out%d" % i, -1e3, 1e3) for i in range(n)]
+        cov = [env.real("c%d" % i, 0, 1) for i in range(n)]
+        # strict ranking of effectiveness (ties leave the documented order open)
+        for i in range(n):
+            for j in range(i + 1, n):
+                env.assume(env.b(env.sabs(outs[i] - base) != env.sabs(outs[j] - base)), "no ties in effectiveness")
+        with env.installed(_patches()):
+            cv = ap.Covout("par", "pop", dict(zip(names, outs)), cov_interaction="additive", baseline=base)
+            got = cv.get_outcome({nm: env.array([c]) for nm, c in zip(names, cov)})
+        # reference: order by |delta| descending (decided per path, consistent with the real sort)
+        idx = list(range(n))
+        for a in range(1, n):
+            b = a
+            while b > 0 and bool(env.b(env.sabs(outs[idx[b - 1]] - base) < env.sabs(outs[idx[b]] - base))):
+                idx[b - 1], idx[b] = idx[b], idx[b - 1]
+                b -= 1
+        c = [cov[i] for i in idx]
+        d = [outs[i] - base for i in idx]
+        tot = 0.0
+        for x in c:
+            tot = tot + x
+        if bool(env.b(tot > 1)):
+            add, rp = [], []
+            used = 0.0
+            for i in range(n):
+                a_i = env.smin(c[i], env.smax(1.0 - used, 0.0))
+                used = used + c[i]
+                add.append(a_i)
+                rnd = c[i] - a_i
+                rem = 1.0 - a_i
+                if env.symbolic:
+                    from vsym.core import where
+
+                    rp.append(where(rem != 0, rnd / rem, 0.0))
+                else:
+                    rp.append(rnd / rem if rem != 0 else 0.0)
+            ref = base
+            for mask in range(1, 2**n):
+                S = [i for i in range(n) if mask >> i & 1]
+                best = d[S[0]]  # d is sorted by magnitude: the first member is the most effective one
+                w = 0.0
+                for i in S:
+                    t = add[i]
+                    for j in range(n):
+                        if j == i:
+                            continue
+                        t = t * (rp[j] if j in S else (1.0 - rp[j]))
+                    w = w + t
+                ref = ref + w * best
+        else:
+            ref = base
+            for i in range(n):
+                ref = ref + c[i] * d[i]
+        env.claim("additive_value_follows_documented_rule", env.eq(got, ref), key="additive_reference")
+
+    return body
+
+
 def progset_body():
     """ProgramSet.get_outcomes on a library program set: every covout's value is inside [min,max] of baseline and outcomes"""
 
@@ -235,6 +305,9 @@ def groups(tier):
         # explicit interaction outcomes for subsets of combinations
         gs.append(_mk("weights[n=2,%s,explicit=01]" % kind, weights_body(2, kind, ((0, 1),)), dict(n=2, interaction=kind, explicit=[[0, 1]])))
         gs.append(_mk("weights[n=3,%s,explicit=01+012]" % kind, weights_body(3, kind, ((0, 1), (0, 1, 2))), dict(n=3, interaction=kind, explicit=[[0, 1], [0, 1, 2]])))
+        if kind == "additive":
+            for n in ((2,) if tier == "quick" else (2, 3)):
+                gs.append(_mk("reference[n=%d,additive]" % n, additive_reference_body(n), dict(n=n, interaction="additive", oracle="documented algorithm")))
         smax_n = {"quick": dict(additive=2, random=3, nested=3), "thorough": dict(additive=3, random=4, nested=4)}[tier][kind]
         for n in range(1, smax_n + 1):
             gs.append(_mk("special[n=%d,%s]" % (n, kind), special_body(n, kind), dict(n=n, interaction=kind)))
@@ -249,12 +322,14 @@ def replay(rec):
     # rebuild the body from the group name
     import re
 
-    m = re.match(r"(weights|special)\[n=(\d+),(\w+)(?:,explicit=([\d+]+))?\]", g)
+    m = re.match(r"(weights|special|reference)\[n=(\d+),(\w+)(?:,explicit=([\d+]+))?\]", g)
     kind = m.group(3)
     n = int(m.group(2))
     if m.group(1) == "weights":
         explicit = tuple(tuple(int(ch) for ch in tok) for tok in m.group(4).split("+")) if m.group(4) else ()
         body = weights_body(n, kind, explicit)
+    elif m.group(1) == "reference":
+        body = additive_reference_body(n)
     else:
         body = special_body(n, kind)
     return replay_body(body, rec["model"], rec["replay"]["claim"])
